@@ -172,6 +172,13 @@ def poll_leaf(ip, loc, leaf):
         return PENDING
     if k in ('sleep', 'notified', 'deleted', 'generic'):
         if k == 'sleep' and getattr(p, 'timers_never_fire', False):
+            # ... except a sleep_until whose instant a history obligation has let pass (p.clock_floor): that timer has fired
+            floor = getattr(p, 'clock_floor', None)
+            d = leaf.data
+            if floor is not None and isinstance(d, S) and d.ty == 'Instant' and p.check(z3.Not(floor >= d.t)) == z3.unsat:
+                write_loc(loc, Leaf(k, leaf.data, True))
+                p.effect('ready', k, leaf.data)
+                return ready(UNIT)
             return PENDING
         if k == 'notified' and getattr(p, 'signals_never_fire', False):
             return PENDING
